@@ -40,7 +40,7 @@ def run_seed(seed: Path):
 
 def main():
     seeds = sorted(p for p in (VERIF / "seeded").iterdir() if p.is_dir() and (p / "patch.diff").exists())
-    with ThreadPoolExecutor(max_workers=8) as ex:
+    with ThreadPoolExecutor(max_workers=14) as ex:
         results = list(ex.map(run_seed, seeds))
     lines = ["# Seeded changes vs checks", "", "Each row: a confirmed behaviour-breaking change (see its meta.json) applied to a scratch copy; the checks that exit 1 with a new VIOLATION, and the rules that fire.", "", "| seed | property | caught by own check | all checks that fire (rules) |", "|---|---|---|---|"]
     missed = []
